@@ -32,15 +32,17 @@ Fixpoint iter (n : nat) (f : list var -> list var) (X : list var) : list var :=
   end.
 Definition rounds : nat := 12.
 
-Definition while_step (c : expr) (lb : conts -> list var) (knn : list var) (X : list var) : list var :=
-  vars_e c ++ knn ++ lb {| kn := X; kb := knn; kc := X |}.
-Definition for_step (x : var) (lb : conts -> list var) (knn : list var) (Y : list var) : list var :=
-  knn ++ remove x (lb {| kn := Y; kb := knn; kc := Y |}).
+(* at the head of a loop: le = live set of the else-clause (taken when the loop ends without break), knn = live
+   set after the whole statement (the break target) *)
+Definition while_step (c : expr) (lb : conts -> list var) (knn le : list var) (X : list var) : list var :=
+  vars_e c ++ le ++ lb {| kn := X; kb := knn; kc := X |}.
+Definition for_step (x : var) (lb : conts -> list var) (knn le : list var) (Y : list var) : list var :=
+  le ++ remove x (lb {| kn := Y; kb := knn; kc := Y |}).
 
-Definition live_while_gen (c : expr) (lb : conts -> list var) (knn : list var) : list var :=
-  iter rounds (while_step c lb knn) (vars_e c ++ knn).
-Definition live_for_gen (x : var) (lb : conts -> list var) (knn : list var) : list var :=
-  iter rounds (for_step x lb knn) knn.
+Definition live_while_gen (c : expr) (lb : conts -> list var) (knn le : list var) : list var :=
+  iter rounds (while_step c lb knn le) (vars_e c ++ le).
+Definition live_for_gen (x : var) (lb : conts -> list var) (knn le : list var) : list var :=
+  iter rounds (for_step x lb knn le) le.
 
 Fixpoint live_s (s : stmt) (k : conts) : list var :=
   match s with
@@ -55,22 +57,24 @@ Fixpoint live_s (s : stmt) (k : conts) : list var :=
       vars_e c
       ++ fold_right (fun s acc => live_s s {| kn := acc; kb := kb k; kc := kc k |}) (kn k) a
       ++ fold_right (fun s acc => live_s s {| kn := acc; kb := kb k; kc := kc k |}) (kn k) b
-  | SWhile _ c b =>
+  | SWhile _ c b els =>
       let lb := fun k' => fold_right (fun s acc => live_s s {| kn := acc; kb := kb k'; kc := kc k' |}) (kn k') b in
-      live_while_gen c lb (kn k)
-  | SFor _ x e b =>
+      let le := fold_right (fun s acc => live_s s {| kn := acc; kb := kb k; kc := kc k |}) (kn k) els in
+      live_while_gen c lb (kn k) le
+  | SFor _ x e b els =>
       let lb := fun k' => fold_right (fun s acc => live_s s {| kn := acc; kb := kb k'; kc := kc k' |}) (kn k') b in
-      vars_e e ++ live_for_gen x lb (kn k)
+      let le := fold_right (fun s acc => live_s s {| kn := acc; kb := kb k; kc := kc k |}) (kn k) els in
+      vars_e e ++ live_for_gen x lb (kn k) le
   | SCall _ rets args _ _ _ => args ++ kn k        (* not used on programs with calls, see nocall *)
   end.
 
 Definition live_b (ss : list stmt) (k : conts) : list var :=
   fold_right (fun s acc => live_s s {| kn := acc; kb := kb k; kc := kc k |}) (kn k) ss.
 
-Definition live_while (c : expr) (b : list stmt) (knn : list var) : list var :=
-  live_while_gen c (live_b b) knn.
-Definition live_for (x : var) (b : list stmt) (knn : list var) : list var :=
-  live_for_gen x (live_b b) knn.
+Definition live_while (c : expr) (b els : list stmt) (k : conts) : list var :=
+  live_while_gen c (live_b b) (kn k) (live_b els k).
+Definition live_for (x : var) (b els : list stmt) (k : conts) : list var :=
+  live_for_gen x (live_b b) (kn k) (live_b els k).
 Global Opaque rounds.
 
 (* the iteration reached a fixed point at every loop (with the live sets actually used there) *)
@@ -87,24 +91,34 @@ Fixpoint conv_s (s : stmt) (k : conts) : bool :=
             | [] => true
             | s :: r => go r && conv_s s {| kn := live_b r k; kb := kb k; kc := kc k |}
             end) b
-  | SWhile _ c b =>
-      let X := live_while c b (kn k) in
+  | SWhile _ c b els =>
+      let X := live_while c b els k in
       let k' := {| kn := X; kb := kn k; kc := X |} in
-      subset (while_step c (live_b b) (kn k) X) X
+      subset (while_step c (live_b b) (kn k) (live_b els k) X) X
       && (fix go (ss : list stmt) : bool :=
             match ss with
             | [] => true
             | s :: r => go r && conv_s s {| kn := live_b r k'; kb := kb k'; kc := kc k' |}
             end) b
-  | SFor _ x _ b =>
-      let Y := live_for x b (kn k) in
+      && (fix go (ss : list stmt) : bool :=
+            match ss with
+            | [] => true
+            | s :: r => go r && conv_s s {| kn := live_b r k; kb := kb k; kc := kc k |}
+            end) els
+  | SFor _ x _ b els =>
+      let Y := live_for x b els k in
       let k' := {| kn := Y; kb := kn k; kc := Y |} in
-      subset (for_step x (live_b b) (kn k) Y) Y
+      subset (for_step x (live_b b) (kn k) (live_b els k) Y) Y
       && (fix go (ss : list stmt) : bool :=
             match ss with
             | [] => true
             | s :: r => go r && conv_s s {| kn := live_b r k'; kb := kb k'; kc := kc k' |}
             end) b
+      && (fix go (ss : list stmt) : bool :=
+            match ss with
+            | [] => true
+            | s :: r => go r && conv_s s {| kn := live_b r k; kb := kb k; kc := kc k |}
+            end) els
   | _ => true
   end.
 Definition conv_b (ss : list stmt) (k : conts) : bool :=
@@ -119,7 +133,7 @@ Fixpoint nocall_s (s : stmt) : bool :=
   match s with
   | SCall _ _ _ _ _ _ => false
   | SIf _ _ a b => forallb nocall_s a && forallb nocall_s b
-  | SWhile _ _ b | SFor _ _ _ b => forallb nocall_s b
+  | SWhile _ _ b e | SFor _ _ _ b e => forallb nocall_s b && forallb nocall_s e
   | _ => true
   end.
 Definition nocall (ss : list stmt) : bool := forallb nocall_s ss.
@@ -144,16 +158,22 @@ Fixpoint hole_info (call : stmt) (lc : loc) (M m : list var) (k : conts) : holei
       {| h_may := M ++ defs pre; h_must := m ++ mustd pre; h_live := live_b post k |}
   | LIfT pre _ _ i _ post | LIfF pre _ _ _ i post =>
       hole_info call i (M ++ defs pre) (m ++ mustd pre) {| kn := live_b post k; kb := kb k; kc := kc k |}
-  | LWhile pre _ c i post =>
-      let kn' := live_b post k in
-      let X := live_while c (orig i) kn' in
+  | LWhile pre _ c i els post =>
+      let kk := {| kn := live_b post k; kb := kb k; kc := kc k |} in
+      let X := live_while c (orig i) els kk in
       hole_info call i (M ++ defs pre ++ defs (plug i [call])) (m ++ mustd pre)
-                {| kn := X; kb := kn'; kc := X |}
-  | LFor pre _ x _ i post =>
-      let kn' := live_b post k in
-      let Y := live_for x (orig i) kn' in
+                {| kn := X; kb := kn kk; kc := X |}
+  | LFor pre _ x _ i els post =>
+      let kk := {| kn := live_b post k; kb := kb k; kc := kc k |} in
+      let Y := live_for x (orig i) els kk in
       hole_info call i (M ++ defs pre ++ x :: defs (plug i [call])) (m ++ mustd pre ++ [x])
-                {| kn := Y; kb := kn'; kc := Y |}
+                {| kn := Y; kb := kn kk; kc := Y |}
+  (* in an else-clause: the loop body may have run any number of times before; break/continue of the
+     else-clause go to the enclosing loop *)
+  | LWhileE pre _ _ b i post =>
+      hole_info call i (M ++ defs pre ++ defs b) (m ++ mustd pre) {| kn := live_b post k; kb := kb k; kc := kc k |}
+  | LForE pre _ x _ b i post =>
+      hole_info call i (M ++ defs pre ++ x :: defs b) (m ++ mustd pre) {| kn := live_b post k; kb := kb k; kc := kc k |}
   end.
 
 (* the region neither breaks/continues out of itself nor returns, except by a final top-level return *)
